@@ -117,8 +117,30 @@ NoCipherVerdict(ev) ==
 AesVerdict(ev) == IF EncBlock(ev.key, ev.pt) # ev.ct THEN "aes-tla-differs-from-openssl"
                   ELSE IF DecBlock(ev.key, ev.ct) # ev.pt THEN "aes-tla-decrypt" ELSE "ok"
 
+\* ---- BF3 framing (same clauses as Trace_Bf3)
+Bf3WriteVerdict(ev) ==
+    LET bin == Bf3Sig \o L!Serialize(ev.comps, 5, ev.key)
+        t   == IF ev.disk = 1 THEN FromDisk(ev.text) ELSE ev.text
+    IN  IF ~TextMatches(t, ev.comments, bin) THEN "text-envelope"
+        ELSE IF ev.disk = 1 /\ ev.text # ToDisk(t) THEN "crlf-translation"
+        ELSE "ok"
+Bf3ReadVerdict(ev) ==
+    LET t  == IF ev.disk = 1 THEN FromDisk(ev.text) ELSE ev.text
+        rt == ReadText(t)
+    IN  IF ~rt.ok THEN (IF ev.kind = "ok" THEN "accepted-bad-text" ELSE "ok")
+        ELSE IF Len(rt.bin) < 5 \/ SubSeq(rt.bin, 1, 5) # Bf3Sig THEN (IF ev.kind = "ok" THEN "accepted-bad-signature" ELSE "ok")
+        ELSE LET p == L!Parse(rt.bin, 5, ev.key, ev.check) IN
+             IF ~p.ok THEN (IF ev.kind = "ok" THEN "accepted-malformed:" \o p.err ELSE "ok")
+             ELSE IF ev.kind # "ok" THEN "rejected-wellformed"
+             ELSE IF ev.comps # p.comps THEN "content-differs-from-fields"
+             ELSE IF ev.comments # rt.comments THEN "comments-differ"
+             ELSE "ok"
+Bf3NoSilentAccept(ev) == (ev.has_auth = 1 /\ ev.kind = "ok") => (SameComps(ev.comps, ev.auth_comps) /\ ev.comments = ev.auth_comments)
+
 Verdict(ev) ==
     IF ev.op = "c08.wrap" THEN WrapVerdict(ev)
+    ELSE IF ev.op = "bf3.write" THEN Bf3WriteVerdict(ev)
+    ELSE IF ev.op = "bf3.read" THEN (IF ~Bf3NoSilentAccept(ev) THEN "silent-accept" ELSE Bf3ReadVerdict(ev))
     ELSE IF ev.op = "c09.pack" THEN PackVerdict(ev)
     ELSE IF ev.op = "c09.unwrap" THEN EccUnwrapVerdict(ev)
     ELSE IF ev.op = "c06.scan" THEN ScanVerdict(ev)
